@@ -443,6 +443,22 @@ def run_lu2(c, N, tier):
                     continue
                 if not np.array_equal(A.data, data):
                     c.fail('lu2', 'argument modified', case)
+                # the packed variant returns LAPACK's pivot vector as well: the same conversion must reproduce A
+                try:
+                    LUp, PIVp = UTPM.lu_factor(UTPM(data.copy()))
+                    for p in range(P):
+                        pv_p = np.asarray(PIVp.data[0, p], dtype=int)
+                        Wp = AU.piv2mat(pv_p)
+                        Lp = [np.tril(LUp.data[d, p], -1) + (np.eye(N) if d == 0 else 0) for d in range(D)]
+                        Up = [np.triu(LUp.data[d, p]) for d in range(D)]
+                        sc = 1.0 + max(np.abs(LUp.data[:, p]).max(), 1.0) ** 2 * D * N
+                        badd = [d for d in range(D) if not np.all(np.abs(np.dot(Wp, conv(Lp, Up, d)) - data[d, p]) <= 1e-10 * sc)]
+                        if badd or not np.array_equal(pv_p, np.asarray(PIV.data[0, p], dtype=int)):
+                            c.fail('lu_factor P L U = A (polynomial)', dsub + ('|direction 0' if p == 0 else '|direction >0'),
+                                   dict(case, coefficient=badd[0] if badd else -1, direction=p, pivots_lu_factor=[int(v) for v in pv_p]))
+                            break
+                except Exception as e:
+                    c.fail('lu_factor raises', dsub, dict(case, error=str(e)[:200]))
                 for p in range(P):
                     Ls = [L.data[d, p] for d in range(D)]
                     Us = [U.data[d, p] for d in range(D)]
